@@ -16,8 +16,12 @@ URL_BASES = ["http://h/", "https://h/", "http://g.org/x"]
 
 UNICODE = st.characters(exclude_categories=["Cs"])
 LONG_IDENTIFIERS = ["9" * 255, "a" * 256 + "/b", "x" * 1025]
-IDENTIFIER_FIXED = ["", "1", "0001", "a/b", "x#y", "a b", "é", "A", "a_1", "1:2", "/x", "x/", "#x", "_x", " 1", "1 ", "1\n", "aB", "Ab", "//x", "a.b", "-1", "%20", "?q=1"]
+IDENTIFIER_FIXED = ["", "1", "0001", "a/b", "x#y", "a b", "é", "A", "a_1", "1:2", "/x", "x/", "#x", "_x", " 1", "1 ", "1\n", "aB", "Ab", "//x", "a.b", "-1", "%20", "?q=1", "e\u0301", "\u212b1", "\ufb01x", "\uff11\uff12"]
 # realistic, long URI prefixes (some behaviour only shows beyond a certain length or with a scheme)
+# strings that change under Unicode normalisation (NFC / NFD / NFKC), case folding or both: decomposed e-acute, ANGSTROM SIGN,
+# fi ligature, full-width letters, long s with dot below + above, OHM SIGN, i + combining dot, dotted capital I, sharp s, a
+# titlecase digraph, KELVIN SIGN, a CJK compatibility ideograph, superscript two
+NORMALISATION_SENSITIVE = ["e\u0301", "\u212b", "\ufb01", "\uff27\uff2f", "\u1e9b\u0323", "\u2126", "i\u0307", "\u0130", "\u00df", "\u01c5", "\u212a", "\uf900", "x\u00b2"]
 LONG_BASES = ["http://purl.obolibrary.org/obo/", "https://example.org/ns#", "urn:x:", "http://purl.obolibrary.org/obo/CHEBI_", "HTTP://EXAMPLE.ORG/",
               "http://long.example.org/" + "segment/" * 40]  # > 300 characters
 
@@ -53,7 +57,7 @@ def curie_pool(draw, min_size: int, max_size: int, *, forbidden: str = "", allow
             base = draw(st.sampled_from(pool))
             new = base.swapcase() if mode == 0 else (base + draw(st.sampled_from(alpha)) if mode == 1 else base[:-1])
         elif unicode_arm and mode == 3:
-            new = draw(st.text(UNICODE, max_size=3))
+            new = draw(st.one_of(st.text(UNICODE, max_size=3), st.sampled_from(NORMALISATION_SENSITIVE)))
             if forbidden:
                 for ch in set(forbidden):
                     new = new.replace(ch, "")
@@ -92,7 +96,7 @@ def uri_pool(draw, min_size: int, max_size: int, *, alphabet: str = URI_ALPHA, a
             else:
                 new = draw(st.sampled_from(alphabet)) + base
         elif unicode_arm and mode == 7:
-            new = draw(st.text(UNICODE, max_size=4))
+            new = draw(st.one_of(st.text(UNICODE, max_size=4), st.sampled_from(NORMALISATION_SENSITIVE).map(lambda x: "http://n/" + x + "/")))
         elif long_arm and mode == 8:
             new = draw(st.sampled_from(LONG_BASES)) + draw(txt(alphabet, max_size=2))
         else:
@@ -229,6 +233,8 @@ def boundary_uri_probes(records, idents=("1", "")) -> list[str]:
         out.extend([p, p[:-1], p[:-1] + "~", p + "~", "~" + p])
         for i in idents:
             out.append(p + i)
+        if p:
+            out.append(p + "1?see=" + p + "2")  # the matched prefix occurs again inside the identifier
     seen, uniq = set(), []
     for u in out:
         if u not in seen:
